@@ -630,6 +630,10 @@ type c21Run struct {
 	stagedSinceScan map[string]bool
 	ready           bool // endpoints exist
 	bulkRoot        string
+	forceAncestor   bool // the next scans pass forcedAncestor (may be nil)
+	forcedAncestor  *core.Entry
+	kindRoot        string       // root-kind program: the root whose kind changes
+	neverPopulated  bool         // ... and it did not exist when the endpoints were created
 	progressNs      atomic.Int64 // time of the last step start (watchdog)
 	curOp           string       // operation of the current step (under jmu)
 }
@@ -747,6 +751,11 @@ func (x *c21Run) scan(which string, full bool) stepOutcome {
 	var anc *core.Entry
 	other := map[string]string{"a": "b", "b": "a"}[which]
 	switch prev := x.snap[which]; {
+	case x.forceAncestor:
+		anc = x.forcedAncestor
+		if anc != nil {
+			x.r.Count("scans_with_forced_non_nil_ancestor", 1)
+		}
 	case prev == nil && x.rng.Intn(4) != 0:
 		slm, pm := x.p.cfg.SymbolicLinkMode, x.p.cfg.PermissionsMode
 		if slm.IsDefault() {
@@ -1115,6 +1124,98 @@ func (x *c21Run) compareSupply(op string, recs [2]*recorder, serrs [2]error) ste
 	return stepOutcome{kind: "supply", class: fmt.Sprintf("d%d,b%d,e%d", bucket(data), bucket(blocks), bucket(errors))}
 }
 
+// syntheticAncestor is a populated directory entry unrelated to the disk.
+func syntheticAncestor(r *rand.Rand, n int) *core.Entry {
+	e := &core.Entry{Kind: core.EntryKind_Directory, Contents: map[string]*core.Entry{}}
+	for i := 0; i < n; i++ {
+		e.Contents[fmt.Sprintf("ancestor-file-%03d", i)] = &core.Entry{Kind: core.EntryKind_File, Digest: contentFor(r.Int63(), 20)}
+	}
+	return e
+}
+
+// rootKindHistory drives one endpoint through a history of root states with
+// SEVERAL CONSECUTIVE scans in each state: missing (never populated, scanned
+// with a populated ancestor), populated, removed (x3), repopulated, a file, an
+// empty directory, a dangling link, removed again, a directory again. While
+// the root is missing the remote client keeps an older baseline (it does not
+// store content-less snapshots), so every one of those scans must still
+// reconstruct the empty snapshot.
+func (x *c21Run) rootKindHistory(record func(stepOutcome)) {
+	which := x.kindRoot
+	type phase struct {
+		ops   []diskOp
+		scans int
+		anc   string // "", "synthetic", "nil", "mixed"
+	}
+	tick := func() int64 { x.clock++; return x.clock }
+	populate := func() []diskOp {
+		return []diskOp{{Kind: "root-dir"},
+			{Kind: "write", Path: "populated-1", Size: 100 + x.rng.Intn(3000), Seed: x.rng.Int63(), Mode: 0o644, Mtime: tick()},
+			{Kind: "mkdir", Path: "populated-dir"},
+			{Kind: "write", Path: "populated-dir/inner", Size: x.rng.Intn(500), Seed: x.rng.Int63(), Mode: 0o755, Mtime: tick()}}
+	}
+	var phases []phase
+	if x.neverPopulated {
+		phases = append(phases, phase{nil, 3, "synthetic"})
+	}
+	phases = append(phases,
+		phase{populate(), 1 + x.rng.Intn(2), ""},
+		phase{[]diskOp{{Kind: "root-remove"}}, 3, "mixed"},
+		phase{populate(), 1, ""},
+		phase{[]diskOp{{Kind: "root-file", Size: c21Size(x.rng), Seed: x.rng.Int63(), Mode: 0o755, Mtime: tick()}}, 2, ""},
+		phase{[]diskOp{{Kind: "root-dir"}}, 2, ""},
+		phase{[]diskOp{{Kind: "root-link", Target: "nowhere"}}, 2, ""},
+		phase{[]diskOp{{Kind: "root-remove"}}, 2 + x.rng.Intn(2), "synthetic"},
+		phase{populate(), 1, ""},
+	)
+	synthetic := syntheticAncestor(x.rng, 5+x.rng.Intn(60))
+	for _, ph := range phases {
+		for _, op := range ph.ops {
+			if x.dead {
+				return
+			}
+			x.log("edit %s: %s", which, op)
+			el, er := applyOp(x.L.root(which), op), applyOp(x.R.root(which), op)
+			if (el == nil) != (er == nil) {
+				x.r.Inconclusive("edit-not-mirrored")
+				x.dead = true
+				return
+			}
+			x.dirty[which] = true
+			x.r.Count("edits", 1)
+			if strings.HasPrefix(op.Kind, "root-") {
+				x.r.Count("edits_root_kind", 1)
+			}
+		}
+		absentBefore := x.snap[which] != nil && x.snap[which].Content == nil
+		for i := 0; i < ph.scans && !x.dead; i++ {
+			switch ph.anc {
+			case "synthetic":
+				x.forceAncestor, x.forcedAncestor = true, synthetic
+			case "nil":
+				x.forceAncestor, x.forcedAncestor = true, nil
+			case "mixed":
+				x.forceAncestor, x.forcedAncestor = true, nil
+				if x.rng.Intn(2) == 0 {
+					x.forcedAncestor = synthetic
+				}
+			}
+			o := x.scan(which, x.rng.Intn(2) == 0)
+			x.forceAncestor, x.forcedAncestor = false, nil
+			record(o)
+			if !x.dead && x.snap[which] != nil && x.snap[which].Content == nil {
+				if absentBefore {
+					x.r.Count("consecutive_scans_of_a_missing_root", 1)
+				}
+				absentBefore = true
+			} else {
+				absentBefore = false
+			}
+		}
+	}
+	x.clock += 5
+}
+
 // lateNonUTF8 makes a transition meet a name that is not valid UTF-8 and that
 // the scan has not seen: a directory existing only on dst is scanned, then
 // gains such an entry, then the replica plan (which removes the directory) is
@@ -1363,6 +1464,20 @@ func (x *c21Run) setup() error {
 			x.clock += 2
 		}
 	}
+	if p.Index%4 == 1 {
+		x.kindRoot = []string{"a", "b"}[x.rng.Intn(2)]
+		if x.rng.Intn(2) == 0 {
+			// the root does not exist when the endpoints come up and is first
+			// scanned (repeatedly) as missing
+			x.neverPopulated = true
+			x.log("edit %s: root-remove before the endpoints exist", x.kindRoot)
+			for _, s := range x.sides() {
+				if err := os.RemoveAll(s.root(x.kindRoot)); err != nil {
+					return err
+				}
+			}
+		}
+	}
 	for _, which := range []string{"a", "b"} {
 		alpha := which == "a"
 		ep, err := local.NewEndpoint(logger, x.L.root(which), x.L.session, synchronization.DefaultVersion, proto.Clone(p.cfg).(*synchronization.Configuration), alpha)
@@ -1411,9 +1526,13 @@ func (x *c21Run) run() {
 		}
 	}
 	// Every program begins with a scan of both roots.
-	record(x.scan("a", x.rng.Intn(2) == 0))
-	if !x.dead {
-		record(x.scan("b", x.rng.Intn(2) == 0))
+	for _, which := range []string{"a", "b"} {
+		if x.neverPopulated && which == x.kindRoot {
+			continue // first scanned, as missing, by rootKindHistory
+		}
+		if !x.dead {
+			record(x.scan(which, x.rng.Intn(2) == 0))
+		}
 	}
 	bulkBudget := 0
 	if x.p.Index%4 == 0 {
@@ -1449,34 +1568,7 @@ func (x *c21Run) run() {
 		x.clock += 10
 	}
 	if x.p.Index%4 == 1 {
-		// root-kind program: the same endpoint scans its root while it is
-		// removed, a file, an empty directory, a dangling link, a directory again
-		which := []string{"a", "b"}[x.rng.Intn(2)]
-		for _, op := range []diskOp{
-			{Kind: "root-remove"},
-			{Kind: "root-file", Size: c21Size(x.rng), Seed: x.rng.Int63(), Mode: 0o755, Mtime: x.clock + 1},
-			{Kind: "root-dir"},
-			{Kind: "root-link", Target: "nowhere"},
-			{Kind: "root-remove"},
-			{Kind: "root-dir"},
-			{Kind: "write", Path: "after-root-change", Size: 100, Seed: x.rng.Int63(), Mode: 0o644, Mtime: x.clock + 2},
-		} {
-			if x.dead {
-				break
-			}
-			x.log("edit %s: %s", which, op)
-			el, er := applyOp(x.L.root(which), op), applyOp(x.R.root(which), op)
-			if (el == nil) != (er == nil) {
-				x.r.Inconclusive("edit-not-mirrored")
-				x.dead = true
-				break
-			}
-			x.dirty[which] = true
-			x.r.Count("edits", 1)
-			x.r.Count("edits_root_kind", 1)
-			record(x.scan(which, x.rng.Intn(2) == 0))
-		}
-		x.clock += 5
+		x.rootKindHistory(record)
 	}
 	for x.step = 1; x.step <= x.p.Steps && !x.dead; x.step++ {
 		which := []string{"a", "b"}[x.rng.Intn(2)]
@@ -1623,7 +1715,10 @@ func (x *c21Run) stageRaw(dst string, req []fileRef) stepOutcome {
 type heartbeat struct {
 	lastBadNs atomic.Int64 // unix nanoseconds of the last gap >= 1 s, 0 if none
 	maxGapNs  atomic.Int64
-	stop      chan struct{}
+	// windowMaxNs is the largest gap since it was last reset (used by the
+	// cancellation probe, which runs alone)
+	windowMaxNs atomic.Int64
+	stop        chan struct{}
 }
 
 func startHeartbeat() *heartbeat {
@@ -1641,6 +1736,9 @@ func startHeartbeat() *heartbeat {
 				g := now.Sub(last)
 				if g.Nanoseconds() > h.maxGapNs.Load() {
 					h.maxGapNs.Store(g.Nanoseconds())
+				}
+				if g.Nanoseconds() > h.windowMaxNs.Load() {
+					h.windowMaxNs.Store(g.Nanoseconds())
 				}
 				if g >= time.Second {
 					h.lastBadNs.Store(now.UnixNano())
@@ -1761,6 +1859,9 @@ func c21() {
 		seeds[i] = rng.Int63()
 	}
 	hb := startHeartbeat()
+	if os.Getenv("VERIF_CASE") == "" {
+		c21CancelProbes(r, hb)
+	}
 	workers := runtime.NumCPU()
 	if workers > 16 {
 		workers = 16
@@ -1800,6 +1901,7 @@ func c21() {
 	r.Assume("Stage is not issued while the destination changed since its last scan and a requested digest has two or more holders in the destination's cache: local.Stage picks its in-root source through a digest->path map built in Go map order, so the required subset is not a function of the inputs there (the monitor rescans first)")
 	r.Assume("FIFOs are created only under names that never carry a file on the other root: local.Stage and rsync.Transmit open files without O_NONBLOCK and block forever on a FIFO (observed; not a local/remote difference)")
 	r.Assume("the remote staging receiver is asynchronous (the server stores files while draining the stream); the monitor waits for it with a Poll round trip before editing the disk again, as the next controller call would")
+	r.Assume("cancellation of a long Transition is judged one-sidedly and control-relatively (event-triggered cancel, local control must stop early, the completion request must have been in the server's stream with >= 3/4 of the work left and >= 500 ms and >= 20 heartbeat gaps before the return); anything else is held or inconclusive")
 	r.Assume("a Stage or Supply error ends the remote server by design, so a program stops at the first such (equal on both sides) error")
 	r.Finish("random programs of Scan(full?)/Stage+Supply/Supply probes/Transition/disk edits (incl. empty roots, root kind changes, bulk directories of 300-1800 files, stale plans, wrong digests, missing sources, entry-count and staging-size limits) run identically against a local endpoint and a remote endpoint (client<->server over a randomly fragmenting in-memory pipe, compression none/deflate/default); distinct = (operation, outcome class, compression) of steps whose returned values were compared equal", 25)
 }
